@@ -22,6 +22,7 @@ from aws_durable_execution_sdk_python.concurrency.models import (
 )
 from aws_durable_execution_sdk_python.config import ChildConfig
 from aws_durable_execution_sdk_python.exceptions import (
+    CallableRuntimeError,
     OrphanedChildException,
     SuspendExecution,
     TimedSuspendExecution,
@@ -394,7 +395,7 @@ class ConcurrentExecutor(ABC, Generic[CallableType, ResultType]):
                         BatchItem(
                             executable.index,
                             BatchItemStatus.FAILED,
-                            error=ErrorObject.from_exception(executable.error),
+                            error=self._error_object_for(executable.error),
                         )
                     )
                 case (
@@ -408,6 +409,23 @@ class ConcurrentExecutor(ABC, Generic[CallableType, ResultType]):
                     )
 
         return BatchResult.from_items(batch_items, self.completion_config)
+
+    @staticmethod
+    def _error_object_for(error: Exception) -> ErrorObject:
+        """Error reported for a failed branch.
+
+        A failing branch surfaces as the CallableRuntimeError raised by its child context, which
+        carries the error recorded in the branch's checkpoint. Report that recorded error, so
+        that the first execution and a ReplayChildren replay (which reads the checkpoint) agree.
+        """
+        if isinstance(error, CallableRuntimeError):
+            return ErrorObject(
+                message=error.message,
+                type=error.error_type,
+                data=error.data,
+                stack_trace=error.stack_trace,
+            )
+        return ErrorObject.from_exception(error)
 
     def _execute_item_in_child_context(
         self,
